@@ -153,7 +153,14 @@ struct Run : ContBase {
         qvector_obj_t o; memset(&o, 0, sizeof o);
         size_t i = 0;
         errno = poison;
+        bool lookups = s.chance(1, 3);     // read-only calls between the steps: the vector stays unmodified
         while (qvector_getnext(v, &o, newmem)) {
+            if (lookups && !m.empty() && s.chance(1, 2)) {
+                long gi = s.range(0, (long)m.size() - 1);
+                void *p = qvector_getat(v, (int)gi, false);
+                if (!p || memcmp(p, m[(size_t)gi].data(), objsize) != 0) c.fail(FUNC, "vector:get", "getat(%ld) between two steps of a walk returned the wrong element", gi);
+                (void)qvector_size(v);
+            }
             if (i >= m.size()) c.fail(FUNC, "vector:walk-extra", "walk returned more than %zu elements", m.size());
             if (memcmp(o.data, m[i].data(), objsize) != 0) c.fail(FUNC, "vector:walk-order", "walk step %zu returned %s, expected %s", i, hexs(o.data, objsize, 12).c_str(), hexs(m[i], 12).c_str());
             see(o.data, objsize);
